@@ -72,8 +72,8 @@ def slices(tier):
     if tier == "quick":
         s["A_pto01_G6"] = [
             _mk(k, h, p, sc, pto, "G6", q2, xl, x, "A")
-            for k, h, p, sc, pto, q2 in itertools.product(SF_KINDS, ["light", "total", "charm"], PROCS, ["ZM-VFNS", "FFNS3"], [0, 1], [4.0, 30.0])
-            for xl, x in _xl("G6", "8")
+            for k, h, p, sc, pto, q2 in itertools.product(SF_KINDS, ["light", "total", "charm"], PROCS, ["ZM-VFNS", "FFNS3", "FFN03", "FONLL-FFN04"], [0, 1], [4.0, 30.0])
+            for xl, x in _xl("G6", "all")
         ]
         s["A_pto01_G9L7"] = [
             _mk(k, h, p, sc, pto, g, 30.0, xl, x, "A2")
